@@ -41,8 +41,14 @@ func newSubRun(c *Ctx, run string, ih uint64, limit uint64, cfg world.F) *subRun
 	c.Tr.Reset(run, cfg)
 	w := world.NewWorld(c.Tr, ih, world.T0)
 	n := w.NewNode(world.NodeOpts{Name: "seq", Aggregator: true, MaxPending: limit, DABlockTime: daBlockTime, BlockTime: 100 * time.Millisecond, MempoolTTL: 2})
+	subRunCount++
+	if subRunCount%2 == 0 && n.KV != nil {
+		n.KV.Yield = 4 // every other run: durable writes are scheduling points (the other loops run in between)
+	}
 	return &subRun{c: c, w: w, n: n, limit: limit}
 }
+
+var subRunCount int
 
 func (s *subRun) loop(name string, f func(ctx context.Context)) {
 	s.wg.Add(1)
